@@ -58,7 +58,7 @@ Proof.
   - destruct (walk_entry_facts _ _ _ _ _ _ _ W) as (en & Ge & Hent & Hm & -> & ->).
     pose proof (node_ok_entry _ (inv_ok _ _ I _ _ Ge) Hent) as Hd15. rewrite Hd15 in *.
     destruct (N.testbit (n_mask en) (idxP k 15)) eqn:B.
-    + rewrite (foi_run_case3_present esz lsz s k v tt e _ _ I Hk W eq_refl B) in R. injection R as <- _ _.
+    + rewrite (foi_run_case3_present esz lsz s k v e _ _ I Hk W B) in R. injection R as <- _ _.
       apply FC_present. reflexivity.
     + rewrite (foi_run_case3_new esz lsz s k v e en (idxP k 15) I Hk W (idx_lt k 15) Ge Hent B) in R.
       injection R as <- _ _. eapply (FC_case3 _ _ _ _ _ _ e en); try reflexivity; try assumption. symmetry. exact Hm.
